@@ -64,6 +64,7 @@ const (
 	WGet   = "wget"   // wx
 	GInst  = "ginst"  // inner<I>()                   instance of library generator I
 	Iter   = "iter"   // mkit(I)                      instrumented iterator with flag set I
+	Prom   = "prom"   // dfp(I)                       generator rendering: the number I; async rendering: the deferred promise I itself (not awaited)
 )
 
 // Statement kinds.
@@ -670,6 +671,12 @@ func (p *printer) expr(e *N) {
 		p.f("inner%d()", e.I)
 	case Iter:
 		p.f("mkit(%d)", e.I)
+	case Prom:
+		if p.async {
+			p.f("dfq(%d)", e.I)
+		} else {
+			p.f("dfp(%d)", e.I)
+		}
 	default:
 		panic("genmodel: unknown expression kind " + e.K)
 	}
@@ -754,6 +761,8 @@ var dfd = {};
 function mkd() { var d = {}; d.p = new Promise(function(a, b) { d.res = a; d.rej = b; }); return d; }
 function df(v) { if (typeof v === "number" && v >= 1 && v <= 3) return (dfd[v] || (dfd[v] = mkd())).p; return v; }
 function dfs(v) { return v; }
+function dfp(k) { return k; }
+function dfq(k) { return (dfd[k] || (dfd[k] = mkd())).p; }
 function ticks() { Promise.resolve().then(function() { log("t1"); }).then(function() { log("t2"); }).then(function() { log("t3"); }).then(function() { log("t4"); }); }
 function settle(k, rej, v) { var d = dfd[k] || (dfd[k] = mkd()); (rej ? d.rej : d.res)(v); ticks(); }
 function astart() {
